@@ -647,7 +647,100 @@ func Len(val Value) (int, error) {
 // Equal returns true if the two Values are considered equal.
 func Equal(left Value, right Value) bool {
 	// TODO: Stop-gap for now, this will need to be much more sophisticated.
+	if lc, rc := isContainer(left), isContainer(right); lc || rc {
+		// Lists and hashes all coerce to the empty string: they are compared
+		// element by element instead.
+		return lc && rc && equalContainers(left, right, 0)
+	}
+	if isOpaque(left) || isOpaque(right) {
+		// Structs and the like coerce to the empty string as well.
+		return reflect.DeepEqual(left, right)
+	}
 	return CoerceString(left) == CoerceString(right)
+}
+
+// isOpaque reports whether v is a struct, pointer, func or chan without a
+// value of its own (from Stringer, Number or Boolean): something all three
+// coercions answer with their fallback.
+func isOpaque(v Value) bool {
+	if sv, ok := v.(SafeValue); ok && !nilReceiver(sv, "Value") {
+		v = sv.Value()
+	}
+	switch v.(type) {
+	case Stringer, Number, Boolean, decimal.Decimal:
+		return false
+	}
+	switch r := reflect.ValueOf(v); r.Kind() {
+	case reflect.Ptr, reflect.Func, reflect.Chan, reflect.UnsafePointer:
+		return !r.IsNil() // a nil pointer is as good as null
+	case reflect.Struct, reflect.Complex64, reflect.Complex128:
+		return true
+	}
+	return false
+}
+
+// isContainer reports whether v is a slice, array or map (possibly behind
+// pointers or a SafeValue) that is not given a value of its own by one of the
+// Stringer, Number or Boolean interfaces.
+func isContainer(v Value) bool {
+	if sv, ok := v.(SafeValue); ok && !nilReceiver(sv, "Value") {
+		v = sv.Value()
+	}
+	switch v.(type) {
+	case Stringer, Number, Boolean:
+		return false
+	}
+	switch reflect.Indirect(reflect.ValueOf(v)).Kind() {
+	case reflect.Slice, reflect.Array, reflect.Map:
+		return true
+	}
+	return false
+}
+
+// equalContainers reports whether two lists have equal elements in the same
+// order, or two maps equal values under the same keys.
+func equalContainers(left, right Value, depth int) bool {
+	if IsMap(left) != IsMap(right) {
+		return false
+	}
+	lv, rv := reflect.Indirect(reflect.ValueOf(left)), reflect.Indirect(reflect.ValueOf(right))
+	if lv.Kind() != reflect.Array && rv.Kind() != reflect.Array && lv.Type() == rv.Type() && lv.Pointer() == rv.Pointer() && lv.Len() == rv.Len() {
+		return true // one and the same list or map
+	}
+	if depth > 100 {
+		return false // data that refers back to itself
+	}
+	eq := func(a, b Value) bool {
+		if ac, bc := isContainer(a), isContainer(b); ac || bc {
+			return ac && bc && equalContainers(a, b, depth+1)
+		}
+		return Equal(a, b)
+	}
+	ll, _ := Len(left)
+	rl, _ := Len(right)
+	if ll != rl {
+		return false
+	}
+	if IsMap(left) {
+		equal := true
+		Iterate(left, func(k, v Value, _ Loop) (bool, error) {
+			other, err := GetAttr(right, k)
+			equal = err == nil && eq(v, other)
+			return !equal, nil
+		})
+		return equal
+	}
+	var elems []Value
+	Iterate(right, func(_, v Value, _ Loop) (bool, error) {
+		elems = append(elems, v)
+		return false, nil
+	})
+	equal := true
+	Iterate(left, func(_, v Value, l Loop) (bool, error) {
+		equal = eq(v, elems[l.Index0])
+		return !equal, nil
+	})
+	return equal
 }
 
 // Contains returns true if the haystack Value contains needle.
